@@ -285,3 +285,56 @@ package mocker
 //@   ensures continues_existing_configuration: old(m.baseMocker.when) != nil ==> m.baseMocker.when == old(m.baseMocker.when)
 //@   ensures inv_kept: mocker_inv(m.baseMocker)
 //@   panics_only_if configuration_rejected: true
+
+// ---- C12: a package override given with Pkg applies to the next lookup only ------------------------------------------------
+// caller_package(): the package of the code that called into the builder (runtime.Caller-derived; uninterpreted).
+//@ uninterp func caller_package() string
+//@ trusted func currentPackage
+//@   pure
+//@   ensures from_call_stack: result == caller_package()
+//@ func (b *Builder) reset2CurPkg
+//@   props C12
+//@   requires receiver: b != nil
+//@   assigns b.pkgName
+//@   ensures snaps_back: b.pkgName == caller_package()
+
+// Every lookup - whether it creates a mocker or continues a cached one - consumes the override.
+//@ func (b *Builder) Func
+//@   props C12
+//@   safety off
+//@   requires receiver: b != nil && b.mockers != nil
+//@   assigns everything
+//@   ensures override_consumed: b.pkgName == caller_package()
+//@   panics_only_if not_a_function: true
+//@ func (b *Builder) Struct
+//@   props C12
+//@   safety off
+//@   requires receiver: b != nil && b.mockers != nil
+//@   assigns everything
+//@   ensures override_consumed: b.pkgName == caller_package()
+//@   panics_only_if bad_instance: true
+//@ func (b *Builder) Interface
+//@   props C12
+//@   safety off
+//@   requires receiver: b != nil && b.mockers != nil
+//@   assigns everything
+//@   ensures override_consumed: b.pkgName == caller_package()
+//@   panics_only_if bad_variable: true
+//@ func (b *Builder) ExportFunc
+//@   props C12
+//@   safety off
+//@   requires receiver: b != nil && b.mockers != nil
+//@   assigns everything
+//@   ensures override_consumed: b.pkgName == caller_package()
+//@   panics_only_if empty_name: true
+//@ func (b *Builder) ExportStruct
+//@   props C12
+//@   safety off
+//@   requires receiver: b != nil && b.mockers != nil
+//@   assigns everything
+//@   ensures override_consumed: b.pkgName == caller_package()
+//@ func (b *Builder) Pkg
+//@   props C12
+//@   requires receiver: b != nil
+//@   assigns b.pkgName
+//@   ensures override_set: b.pkgName == name && result == b
